@@ -14,6 +14,12 @@
   requirement, handler behaviour) is constant during the silent tail, i.e. filters do not read what
   the framework itself writes — see `Env`, `FiltersStable`, `terminates_stable_partial` and, for what
   happens without it, `unstable_filters_witness`.
+  The model follows /repo 608a57d (as reworked by 02af7ce), 30557a0, 40d09eb, 423b86f: `final_state` / `converges` hold for EVERY object
+  (seen or blind, in deletion or not); a carried no-op never swallows a cycle (`carried_noop_comes_back`,
+  `carried_converges`: 02af7ce, the rework of 608a57d — zero delay, touch, the handlers run one turn later); a held-back cycle with a non-empty no-op patch comes back after the deadline
+  (`inconsistent_nonempty_revisited`, `inconsistent_converges`). The turns as they were before those repairs
+  (`loopStepOld`, `loopStepCOld`, `loopStepIOld`) are kept for the regression theorems `blind_witness`,
+  `free_witness`, `carried_noop_witness`, `carried_noop_blocks_release_witness`, `inconsistent_nonempty_witness`.
 -/
 import Kopf.Lemmas.C03_Fail
 namespace Kopf.C03
@@ -107,52 +113,55 @@ theorem terminates_finitely_failing (env : Env) (wf : WF env) (hfin : FinitelyFa
   intro s hu
   exact main (fb env N s) s (Nat.le_refl _) hu
 
-/-- (Guard `prematch`: for objects the framework is blind to the clause is FALSE of the code, `blind_witness`, C03-F2.)
-    FINAL STATE of an object that is not being deleted (and that the framework is not blind to).
-    Whenever the loop has consumed its pending event(s) and nothing is pending any more: the recorded
-    last-handled state IS the object's essence, nothing initial is outstanding, NO progress record of
-    any owned handler remains, and the framework has stopped writing — even a further (re-)delivered
-    event is processed with no change of records or last-handled state and leaves nothing pending; the
-    only request it can cause is the constant part of the patch that changes nothing (`cp env`: 0 unless
-    e.g. an `on.event` handler returns a constant). (No hypothesis on the handlers: a safety property of
-    every quiescent state.) -/
-theorem final_state (env : Env) (hpm : env.prematch = true) (m : Nat) :
-    ∀ (s : State E), s.pending = true → s.gone = false → s.marked = false →
-      (iter env m s).pending = false →
-      (iter env m s).base = some s.ess ∧
-      ((iter env m s).noticed = true → (iter env m s).fullyHandled = true) ∧
+/-- FINAL STATE of an object that still exists, WHATEVER it is — seen by the framework or not (no handler's filters
+    accept it: "blind"), in deletion (held by somebody else's finalizer only) or not. Whenever the loop has consumed
+    its pending event(s) and nothing is pending any more: NO progress record of any owned handler remains, and the
+    framework has stopped writing — even a further (re-)delivered event is processed with no change of records or
+    last-handled state and leaves nothing pending; the only request it can cause is the constant part of the patch
+    that changes nothing (`cp env`: 0 unless e.g. an `on.event` handler returns a constant). And if the framework
+    sees the object (`prematch`) and it is not in deletion, the recorded last-handled state IS the object's essence
+    and nothing initial is outstanding. (No hypothesis on the handlers: a safety property of every quiescent state.
+    Formerly guarded by `prematch` and `marked = false` altogether: C03-F2, repaired by 423b86f — `blind_witness` —
+    and C03-N4, repaired by 40d09eb — `free_witness`. The last-handled state of a blind object, or of one in
+    deletion, is left alone BY DESIGN: it is what makes the changes made meanwhile arrive as ONE accumulated update
+    when the object matches again; no handler is selected for such an object.) -/
+theorem final_state (env : Env) (m : Nat) :
+    ∀ (s : State E), s.pending = true → s.gone = false →
+      (iter env m s).pending = false → (iter env m s).gone = false →
       (∀ i ∈ env.owned, (iter env m s).P i = none) ∧
+      (env.prematch = true → s.marked = false →
+        (iter env m s).base = some s.ess ∧
+        ((iter env m s).noticed = true → (iter env m s).fullyHandled = true)) ∧
       (loopStep env { iter env m s with pending := true }).writes = (iter env m s).writes + cp env ∧
       (loopStep env { iter env m s with pending := true }).pending = false ∧
       (loopStep env { iter env m s with pending := true }).base = (iter env m s).base ∧
       (∀ i, (loopStep env { iter env m s with pending := true }).P i = (iter env m s).P i) := by
   induction m with
-  | zero => intro s hp _ _ hq; simp only [iter] at hq; rw [hp] at hq; cases hq
+  | zero => intro s hp _ hq _; simp only [iter] at hq; rw [hp] at hq; cases hq
   | succ m ih =>
-    intro s hp hg hmk hq
-    simp only [iter] at hq ⊢
+    intro s hp hg hq hgq
+    simp only [iter] at hq hgq ⊢
     cases hp' : (loopStep env s).pending
     · -- quiescence is reached by this very turn
-      rw [iter_quiescent env m _ hp']
-      obtain ⟨hb, hi, hn, hg2, hm2, ha2⟩ := quiescent_after_step env s hp hg hpm hmk hp'
-      have hb' : (loopStep env s).base = some (loopStep env s).ess := by rw [hb, loopStep_ess]
-      obtain ⟨h1, h2, h3, h4⟩ := settled_event_no_write env (loopStep env s) hb' hi hn hg2 hm2 ha2
-      refine ⟨hb, ?_, hn, h1, h2, h3, h4⟩
+      rw [iter_quiescent env m _ hp'] at hgq ⊢
+      have hs := quiescent_settled env s hp hg hp' hgq
+      obtain ⟨h1, h2, h3, h4⟩ := settled_event_no_write env (loopStep env s) hs
+      refine ⟨hs.norec, ?_, h1, h2, h3, h4⟩
+      intro hpm hmk
+      have hmk' : (loopStep env s).marked = false := by rw [loopStep_marked]; exact hmk
+      obtain ⟨hb, hi⟩ := hs.handled hpm hmk'
+      rw [loopStep_ess] at hb
+      refine ⟨hb, ?_⟩
       intro hnt
       rw [hnt] at hi
       simpa using hi
-    · -- an event is still pending: continue from the next state (same essence, still not deleted)
+    · -- an event is still pending: continue from the next state (same essence, same deletion mark)
       have hg2 : (loopStep env s).gone = false := by
-        rcases turn_cases env s hp hg with ⟨_, _, _, _, h⟩ | ⟨_, _, h⟩ | ⟨_, _, h⟩ | ⟨_, _, h1, _⟩ | ⟨_, _, _, _, h⟩
-        · rw [h]; exact hg
-        · rw [h]; simp [remState, hmk]
-        · rw [h]; exact hg
-        · rw [hmk] at h1; cases h1
-        · rw [h]
-          rcases handleTurn_cases env s with ⟨_, h'⟩ | ⟨d, _, _, h'⟩ | ⟨_, _, h'⟩ <;> rw [h'] <;> exact hg
-      have hm2 : (loopStep env s).marked = false := by rw [loopStep_marked]; exact hmk
-      have h := ih (loopStep env s) hp' hg2 hm2 hq
-      rw [loopStep_ess] at h
+        cases hg2 : (loopStep env s).gone
+        · rfl
+        · rw [iter_gone env m _ hg2] at hgq; cases hgq
+      have h := ih (loopStep env s) hp' hg2 hq hgq
+      rw [loopStep_ess, loopStep_marked] at h
       exact h
 
 /-- FINAL STATE of an object that is being deleted and held by the framework's finalizer: whenever
@@ -172,7 +181,7 @@ theorem final_state_deleted (env : Env) (m : Nat) :
     · -- released by this turn; nothing can be pending on a gone object, and a surviving one is FREE
       cases hp' : (loopStep env s).pending
       · rw [iter_quiescent env m _ hp']; exact ⟨hb', hg'⟩
-      · -- still pending (a foreign finalizer holds it): the remaining turns do not touch the finalizer
+      · -- still pending (a foreign finalizer holds it): the remaining turns are FREE ones
         have key : ∀ (k : Nat) (t : State E), t.blocked = false → t.marked = true →
             (iter env k t).blocked = false ∧ (iter env k t).gone = t.gone := by
           intro k
@@ -181,76 +190,48 @@ theorem final_state_deleted (env : Env) (m : Nat) :
           | succ k ihk =>
             intro t hb hmt
             simp only [iter]
-            have hstep : (loopStep env t).blocked = false ∧ (loopStep env t).gone = t.gone ∧
-                (loopStep env t).marked = true := by
-              refine ⟨?_, ?_, by rw [loopStep_marked]; exact hmt⟩
-              · rcases loopStep_form env t with h | ⟨_, h⟩ | h | ⟨g, h⟩ | h | ⟨_, _, _, h⟩
-                · rw [h]; exact hb
-                · rw [h]; exact hb
-                · -- the finalizer is never added to a marked object
-                  exfalso
-                  by_cases hpt : t.pending = true
-                  · by_cases hgt : t.gone = true
-                    · have : loopStep env t = { t with pending := false } := by unfold loopStep; simp [hpt, hgt]
-                      rw [this] at h
-                      have := congrArg State.pending h
-                      simp [addState] at this
-                    · rcases turn_cases env t hpt (by simpa using hgt) with ⟨_, h1, _⟩ | ⟨_, h1, _⟩ | ⟨_, _, h2⟩ | ⟨_, _, _, h1, _⟩ | ⟨_, _, _, _, h2⟩
-                      · rw [hmt] at h1; cases h1
-                      · rw [hb] at h1; cases h1
-                      · rw [h2] at h; have := congrArg State.pending h; simp [addState] at this
-                      · rw [hb] at h1; cases h1
-                      · rw [h2] at h
-                        have h3 : (handleTurn env t).blocked = t.blocked := by
-                          rcases handleTurn_cases env t with ⟨_, h'⟩ | ⟨d, _, _, h'⟩ | ⟨_, _, h'⟩ <;> rw [h'] <;> rfl
-                        have := congrArg State.blocked h
-                        rw [h3, hb] at this
-                        simp [addState] at this
-                  · rw [loopStep_quiescent env t (by simpa using hpt)] at h
-                    have := congrArg State.blocked h
-                    rw [hb] at this; simp [addState] at this
-                · rw [h]; rfl
-                · rw [h]; rfl
-                · rw [h]; exact hb
-              · by_cases hpt : t.pending = true
-                · by_cases hgt : t.gone = true
-                  · rw [gone_stays env t hgt, hgt]
-                  · have hgt' : t.gone = false := by simpa using hgt
-                    rcases turn_cases env t hpt hgt' with ⟨_, h1, _⟩ | ⟨_, h1, _⟩ | ⟨_, _, h2⟩ | ⟨_, _, _, h1, _⟩ | ⟨_, _, _, _, h2⟩
-                    · rw [hmt] at h1; cases h1
-                    · rw [hb] at h1; cases h1
-                    · rw [h2]
-                    · rw [hb] at h1; cases h1
-                    · rw [h2]
-                      rcases handleTurn_cases env t with ⟨_, h'⟩ | ⟨d, _, _, h'⟩ | ⟨_, _, h'⟩ <;> rw [h'] <;> rfl
-                · rw [loopStep_quiescent env t (by simpa using hpt)]
-            obtain ⟨h1, h2⟩ := ihk (loopStep env t) hstep.1 hstep.2.2
-            exact ⟨h1, by rw [h2, hstep.2.1]⟩
+            obtain ⟨s1, s2, s3⟩ := free_step env t hb hmt
+            obtain ⟨h1, h2⟩ := ihk (loopStep env t) s1 s3
+            exact ⟨h1, by rw [h2, s2]⟩
         have hm' : (loopStep env s).marked = true := by rw [loopStep_marked]; exact hmk
         obtain ⟨h1, h2⟩ := key m (loopStep env s) hb' hm'
         exact ⟨h1, by rw [h2, hg']⟩
 
-/-- CONVERGENCE = termination + final state, for an object that is not being deleted. -/
-theorem converges (env : Env) (wf : WF env) (hfin : AllFinal env) (hpm : env.prematch = true)
-    (s : State E) (hu : Uniform env s) (hp : s.pending = true) (hg : s.gone = false) (hmk : s.marked = false) :
-    ∃ m, m ≤ bound env s ∧ (iter env m s).pending = false ∧ (iter env m s).base = some s.ess ∧
-      (∀ i ∈ env.owned, (iter env m s).P i = none) ∧
-      (loopStep env { iter env m s with pending := true }).writes = (iter env m s).writes + cp env ∧
-      (loopStep env { iter env m s with pending := true }).pending = false := by
+/-- CONVERGENCE = termination + final state, for EVERY object (seen or blind, in deletion or not): within the bound
+    the loop is quiescent; an object that is not in deletion is still there; and an object that is still there
+    carries no progress record, is not written to any more, and — if the framework sees it and it is not in deletion —
+    its recorded last-handled state is its essence. (Formerly guarded by `prematch` and `marked = false`: C03-F2,
+    C03-N4.) -/
+theorem converges (env : Env) (wf : WF env) (hfin : AllFinal env)
+    (s : State E) (hu : Uniform env s) (hp : s.pending = true) (hg : s.gone = false) :
+    ∃ m, m ≤ bound env s ∧ (iter env m s).pending = false ∧
+      (s.marked = false → (iter env m s).gone = false) ∧
+      ((iter env m s).gone = false →
+        (∀ i ∈ env.owned, (iter env m s).P i = none) ∧
+        (env.prematch = true → s.marked = false → (iter env m s).base = some s.ess) ∧
+        (loopStep env { iter env m s with pending := true }).writes = (iter env m s).writes + cp env ∧
+        (loopStep env { iter env m s with pending := true }).pending = false) := by
   obtain ⟨m, hm, hq⟩ := terminates env wf hfin s hu
-  obtain ⟨h1, _, h2, h3, h4, _⟩ := final_state env hpm m s hp hg hmk hq
-  exact ⟨m, hm, hq, h1, h2, h3, h4⟩
+  refine ⟨m, hm, hq, fun hmk => iter_unmarked_stays env m s hg hmk, ?_⟩
+  intro hgq
+  obtain ⟨h1, h2, h3, h4, _⟩ := final_state env m s hp hg hq hgq
+  exact ⟨h1, fun a b => (h2 a b).1, h3, h4⟩
 
 /-- CONVERGENCE for scripts with finitely many failures (no bound in terms of the first state alone). -/
-theorem converges_finitely_failing (env : Env) (wf : WF env) (hfin : FinitelyFailing env) (hpm : env.prematch = true)
-    (s : State E) (hu : Uniform env s) (hp : s.pending = true) (hg : s.gone = false) (hmk : s.marked = false) :
-    ∃ m, (iter env m s).pending = false ∧ (iter env m s).base = some s.ess ∧
-      (∀ i ∈ env.owned, (iter env m s).P i = none) ∧
-      (loopStep env { iter env m s with pending := true }).writes = (iter env m s).writes + cp env ∧
-      (loopStep env { iter env m s with pending := true }).pending = false := by
+theorem converges_finitely_failing (env : Env) (wf : WF env) (hfin : FinitelyFailing env)
+    (s : State E) (hu : Uniform env s) (hp : s.pending = true) (hg : s.gone = false) :
+    ∃ m, (iter env m s).pending = false ∧
+      (s.marked = false → (iter env m s).gone = false) ∧
+      ((iter env m s).gone = false →
+        (∀ i ∈ env.owned, (iter env m s).P i = none) ∧
+        (env.prematch = true → s.marked = false → (iter env m s).base = some s.ess) ∧
+        (loopStep env { iter env m s with pending := true }).writes = (iter env m s).writes + cp env ∧
+        (loopStep env { iter env m s with pending := true }).pending = false) := by
   obtain ⟨m, hq⟩ := terminates_finitely_failing env wf hfin s hu
-  obtain ⟨h1, _, h2, h3, h4, _⟩ := final_state env hpm m s hp hg hmk hq
-  exact ⟨m, hq, h1, h2, h3, h4⟩
+  refine ⟨m, hq, fun hmk => iter_unmarked_stays env m s hg hmk, ?_⟩
+  intro hgq
+  obtain ⟨h1, h2, h3, h4, _⟩ := final_state env m s hp hg hq hgq
+  exact ⟨h1, fun a b => (h2 a b).1, h3, h4⟩
 
 /-- CONVERGENCE of a deletion whose handlers' scripts have finitely many failures. -/
 theorem deletion_converges_finitely_failing (env : Env) (wf : WF env) (hfin : FinitelyFailing env)
@@ -285,11 +266,13 @@ theorem all_selected_completed (env : Env) (wf : WF env) (s : State E) (hp : s.p
      (loopStep env s).base = s.base) := by
   constructor
   · exact closed_iff_all_finished (cfgOf env s) s.P s.now s.now env.exec (fun i hi => selOf_sub env wf s i hi) hh hne
-  · rcases turn_cases env s hp hg with ⟨_, _, _, _, h⟩ | ⟨_, _, h⟩ | ⟨_, _, h⟩ | ⟨_, _, _, _, _, h⟩ | ⟨_, _, _, _, h⟩
+  · rcases turn_cases env s hp hg with ⟨_, _, _, _, h⟩ | ⟨_, _, h⟩ | ⟨_, _, h⟩ | ⟨_, _, _, _, _, h⟩ | ⟨_, _, _, _, h⟩ |
+      ⟨_, _, _, _, _, h⟩
     · right; rw [h]; rfl
     · right; rw [h]; rfl
-    · right; rw [h]
+    · right; rw [h]; exact (purgeTurn_fields env s).2.2.2.2.2.1
     · left; rw [h]; rfl
+    · right; rw [h]; exact (purgeTurn_fields env s).2.2.2.2.2.1
     · left; rw [h]
       rcases handleTurn_cases env s with ⟨_, h'⟩ | ⟨d, _, _, h'⟩ | ⟨_, _, h'⟩ <;> rw [h'] <;> rfl
 
@@ -358,34 +341,24 @@ theorem completed_against_final_partial (env : Env) (wf : WF env)
 /-- Delayed handlers are always woken (C03-F7, repaired by 7224f57; C03-N1, repaired by b7bf39c): whether the
     cycle's patch changes the object, holds content that changes nothing on the server (`constPatch`), or sends
     no request at all — a pass that leaves the cycle open leaves an event pending: the echo of a PATCH that
-    changed the object, or the touch after the sleep. NOT in the model: a patch carried over from a rejected
-    JSON-patch (`memory.remaining_patch`, C08's transport), which makes the cycle skip the handlers — open
-    finding C03-N2, found by the oracle. -/
+    changed the object, or the touch after the sleep. A cycle that STARTS with a patch carried over from a rejected
+    JSON-patch (`memory.remaining_patch`, C08's transport) has its own turn `loopStepC` below. -/
 theorem open_pass_leaves_event (env : Env) (s : State E) (hp : s.pending = true) (hg : s.gone = false)
     (ha : adjusting env s = false) (hpm : env.prematch = true) (hh : isHandler s = true)
     (hc : (pass env s).closed = false) :
     (loopStep env s).pending = true ∧ s.writes < (loopStep env s).writes := by
-  rcases turn_cases env s hp hg with ⟨h1, _⟩ | ⟨h1, _⟩ | ⟨_, h1, _⟩ | ⟨_, _, _, _, _, _⟩ | ⟨_, _, _, _, h⟩
+  obtain ⟨now', w, hx⟩ := open_next env s hp hg ha hpm hh hc
+  rcases turn_cases env s hp hg with ⟨h1, _⟩ | ⟨h1, _⟩ | ⟨_, h1, _⟩ | ⟨_, _, _, hbl, _, h⟩ | ⟨_, _, hm1, hb1, _⟩ |
+    ⟨_, _, _, _, _, h⟩
   · unfold adjusting at ha; simp [h1] at ha
   · unfold adjusting at ha; simp [h1] at ha
   · rw [hpm] at h1; cases h1
-  · obtain ⟨now', w, hx⟩ := open_next env s hp hg ha hpm hh hc
-    -- the release turn is excluded by `open_next`'s shape: it never keeps `blocked`
-    rcases turn_cases env s hp hg with ⟨h1, _⟩ | ⟨h1, _⟩ | ⟨_, h1, _⟩ | ⟨_, _, _, hbl, _, h⟩ | ⟨_, _, _, _, h⟩
-    · unfold adjusting at ha; simp [h1] at ha
-    · unfold adjusting at ha; simp [h1] at ha
-    · rw [hpm] at h1; cases h1
-    · rw [hx] at h
-      have := congrArg State.blocked h
-      simp [nextState, releaseTurn, hbl] at this
-    · rw [h]
-      rcases handleTurn_cases env s with ⟨_, h'⟩ | ⟨d, _, _, h'⟩ | ⟨_, hm, h'⟩
-      · rw [h']; exact ⟨rfl, by simp [nextState]⟩
-      · rw [h']; exact ⟨rfl, by simp [nextState]; omega⟩
-      · obtain ⟨_, _, hy⟩ := open_handle_pending env s hh hc
-        rw [h'] at hy
-        have := congrArg State.pending hy
-        simp [nextState] at this
+  · -- the release turn is excluded by `open_next`'s shape: it never keeps `blocked`
+    rw [hx] at h
+    have := congrArg State.blocked h
+    simp [nextState, releaseTurn, hbl] at this
+  · have := handler_marked_blocked s hh hm1
+    rw [hb1] at this; cases this
   · rw [h]
     rcases handleTurn_cases env s with ⟨_, h'⟩ | ⟨d, _, _, h'⟩ | ⟨_, hm, h'⟩
     · rw [h']; exact ⟨rfl, by simp [nextState]⟩
@@ -489,50 +462,48 @@ theorem accumulated_change (env : Env) (s : State E) (edits : List E) (t : Tick)
   · intro hb
     rw [hc]; simp [causeOf, restart, hb, hm, C05.detect, C05.detectReason]
 
-/-- An object no changing handler's filters accept (and whose finalizer needs no adjustment): the event
-    is consumed, nothing is written — neither records nor last-handled state are touched. -/
-theorem blind_quiescent (env : Env) (hpm : env.prematch = false) (s : State E) (hp : s.pending = true)
+/-- An object no changing handler's filters accept (and whose finalizer needs no adjustment): no handler runs, the
+    last-handled state is left alone, and the leftover progress records PRESENT on it are purged (repo fix 423b86f,
+    formerly C03-F2): with leftovers one PATCH goes out, its echo is the next event; with nothing to purge the event
+    is consumed and nothing is written (but the constant part of the patch). Either way no owned record is on the
+    object afterwards. -/
+theorem blind_purges (env : Env) (hpm : env.prematch = false) (s : State E) (hp : s.pending = true)
     (hg : s.gone = false) (ha : adjusting env s = false) :
-    (loopStep env s).pending = false ∧ (loopStep env s).writes = s.writes + cp env ∧
-    (loopStep env s).base = s.base ∧ (loopStep env s).P = s.P := by
-  rcases turn_cases env s hp hg with ⟨h1, _⟩ | ⟨h1, _⟩ | ⟨_, _, h⟩ | ⟨_, h1, _⟩ | ⟨_, h1, _⟩
+    (loopStep env s).base = s.base ∧ (∀ i ∈ env.owned, (loopStep env s).P i = none) ∧
+    (leftovers env s = true → (loopStep env s).pending = true ∧ (loopStep env s).writes = s.writes + 1) ∧
+    (leftovers env s = false → (loopStep env s).pending = false ∧
+      (loopStep env s).writes = s.writes + cp env ∧ (loopStep env s).P = s.P) := by
+  rcases turn_cases env s hp hg with ⟨h1, _⟩ | ⟨h1, _⟩ | ⟨_, _, h⟩ | ⟨_, h1, _⟩ | ⟨_, h1, _⟩ | ⟨_, h1, _⟩
   · unfold adjusting at ha; simp [h1] at ha
   · unfold adjusting at ha; simp [h1] at ha
-  · rw [h]; exact ⟨rfl, rfl, rfl, rfl⟩
+  · rw [h]; exact purgeTurn_spec env s
+  · rw [hpm] at h1; cases h1
   · rw [hpm] at h1; cases h1
   · rw [hpm] at h1; cases h1
 
 /-- A marked object that the own finalizer does not hold (any more) — released, or never blocked — and that
-    still exists because somebody else's finalizer holds it: the cause is FREE; the event is consumed,
-    nothing is written, whatever records and last-handled state are on the object stay as they are. -/
-theorem free_quiescent (env : Env) (s : State E) (hp : s.pending = true) (hg : s.gone = false)
+    still exists because somebody else's finalizer holds it: the cause is FREE; no handler runs, finalizer and
+    last-handled state are left alone, and the leftover progress records PRESENT on it are purged (repo fix 40d09eb,
+    formerly C03-N4): one PATCH and its echo, or — nothing to purge — nothing written. Either way no owned record is on
+    the object afterwards. -/
+theorem free_purges (env : Env) (s : State E) (hp : s.pending = true) (hg : s.gone = false)
     (hmk : s.marked = true) (hbl : s.blocked = false) :
-    (loopStep env s).pending = false ∧ (loopStep env s).writes = s.writes + cp env ∧
-    (loopStep env s).base = s.base ∧ (∀ i, (loopStep env s).P i = s.P i) ∧ (loopStep env s).gone = false := by
-  have hreason : (causeOf s).reason = .free := by
-    unfold causeOf C05.detect C05.detectReason; simp [hmk, hbl]
-  have hh : isHandler s = false := by unfold isHandler; rw [hreason]; decide
-  have hr : handlerReasons.contains (cfgOf env s).reason = false := hh
-  have hnn : ((cfgOf env s).reason == "noop") = false := by
-    show (C14.reasonStr (causeOf s).reason == "noop") = false
-    rw [hreason]; decide
-  have hk := cycle_not_handler_reason_keeps (cfgOf env s) s.P s.now s.now env.exec hr hnn
-  have hinv := cycle_not_handler_reason_invoked (cfgOf env s) s.P s.now s.now env.exec hr
-  have hcl : (pass env s).closed = false := hinv.2
-  have hP : (pass env s).P' = s.P := hk
-  have hdl : (pass env s).delays = [] := by unfold pass; rw [cycle_not_handler_reason _ _ _ _ _ hr]
-  have hnc : changedOf env s = false := by unfold changedOf; rw [hP, hcl]; simp
-  rcases turn_cases env s hp hg with ⟨_, h1, _⟩ | ⟨_, h1, _⟩ | ⟨_, _, h⟩ | ⟨_, _, _, h1, _⟩ | ⟨_, _, _, _, h⟩
+    (loopStep env s).base = s.base ∧ (∀ i ∈ env.owned, (loopStep env s).P i = none) ∧
+    (leftovers env s = true → (loopStep env s).pending = true ∧ (loopStep env s).writes = s.writes + 1) ∧
+    (leftovers env s = false → (loopStep env s).pending = false ∧
+      (loopStep env s).writes = s.writes + cp env ∧ (loopStep env s).P = s.P) ∧
+    (loopStep env s).gone = false ∧ (loopStep env s).blocked = false := by
+  obtain ⟨f1, f2, _⟩ := free_step env s hbl hmk
+  rcases turn_cases env s hp hg with ⟨_, h1, _⟩ | ⟨_, h1, _⟩ | ⟨_, _, h⟩ | ⟨_, _, _, h1, _⟩ | ⟨_, _, _, _, h⟩ |
+    ⟨_, _, _, _, hfr, _⟩
   · rw [hmk] at h1; cases h1
   · rw [hbl] at h1; cases h1
-  · rw [h]; exact ⟨rfl, rfl, rfl, fun _ => rfl, hg⟩
+  · obtain ⟨a, b, c, d⟩ := purgeTurn_spec env s
+    rw [h] at f1 f2 ⊢; exact ⟨a, b, c, d, f2.trans hg, f1⟩
   · rw [hbl] at h1; cases h1
-  · rw [h]
-    rcases handleTurn_cases env s with ⟨h', _⟩ | ⟨d, _, hm, _⟩ | ⟨_, _, h'⟩
-    · rw [hnc] at h'; cases h'
-    · rw [hdl] at hm; simp [minDelay] at hm
-    · rw [h']
-      exact ⟨rfl, rfl, by simp [nextState, hcl], fun i => by simp [nextState, hP], hg⟩
+  · obtain ⟨a, b, c, d⟩ := purgeTurn_spec env s
+    rw [h] at f1 f2 ⊢; exact ⟨a, b, c, d, f2.trans hg, f1⟩
+  · exact absurd ((free_iff s).2 ⟨hmk, hbl⟩) hfr
 
 /-- The `skip` pass (a handler reason, but no handler selected any more — e.g. the retrying handler's
     label filter stopped matching): the cycle is closed, the last-handled state becomes the essence and
@@ -544,10 +515,12 @@ theorem skip_path_purges (env : Env) (s : State E) (hp : s.pending = true) (hg :
     ∀ i ∈ env.owned, (loopStep env s).P i = none := by
   obtain ⟨hc, hn⟩ := closed_purges_skip (cfgOf env s) s.P s.now s.now env.exec hh he
   have hc' : (pass env s).closed = true := hc
-  rcases turn_cases env s hp hg with ⟨h1, _⟩ | ⟨h1, _⟩ | ⟨_, h1, _⟩ | ⟨_, _, h1, _⟩ | ⟨_, _, _, _, h⟩
+  rcases turn_cases env s hp hg with ⟨h1, _⟩ | ⟨h1, _⟩ | ⟨_, h1, _⟩ | ⟨_, _, h1, _⟩ | ⟨_, _, h1, _⟩ |
+    ⟨_, _, _, _, _, h⟩
   · unfold adjusting at ha; simp [h1] at ha
   · unfold adjusting at ha; simp [h1] at ha
   · rw [hpm] at h1; cases h1
+  · rw [hmk] at h1; cases h1
   · rw [hmk] at h1; cases h1
   · rw [h]
     rcases handleTurn_cases env s with ⟨_, h'⟩ | ⟨d, _, _, h'⟩ | ⟨_, _, h'⟩ <;> rw [h'] <;>
@@ -569,10 +542,12 @@ theorem closing_ignores_unselected_records (env : Env) (wf : WF env) (s : State 
     (closed_iff_all_finished (cfgOf env s) s.P s.now s.now env.exec (fun i hi => selOf_sub env wf s i hi) hh hne).2 hall
   have hn : ∀ i ∈ env.owned, (pass env s).P' i = none :=
     closed_purges (cfgOf env s) s.P s.now s.now env.exec hh hne hc
-  rcases turn_cases env s hp hg with ⟨h1, _⟩ | ⟨h1, _⟩ | ⟨_, h1, _⟩ | ⟨_, _, h1, _⟩ | ⟨_, _, _, _, h⟩
+  rcases turn_cases env s hp hg with ⟨h1, _⟩ | ⟨h1, _⟩ | ⟨_, h1, _⟩ | ⟨_, _, h1, _⟩ | ⟨_, _, h1, _⟩ |
+    ⟨_, _, _, _, _, h⟩
   · unfold adjusting at ha; simp [h1] at ha
   · unfold adjusting at ha; simp [h1] at ha
   · rw [hpm] at h1; cases h1
+  · rw [hmk] at h1; cases h1
   · rw [hmk] at h1; cases h1
   · rw [h]
     rcases handleTurn_cases env s with ⟨_, h'⟩ | ⟨d, _, _, h'⟩ | ⟨_, _, h'⟩ <;> rw [h'] <;>
@@ -752,36 +727,53 @@ theorem reverted_change_purged_instance :
     bound (envW true) (stateW (some 1) 1) = 2 :=
   ⟨by decide, by decide, by decide, by decide, by decide, by decide, by decide, by decide⟩
 
-/-- C03-F2 (open). "No progress records remain" and "last-handled = essence" are FALSE for an object that
-    stopped matching every handler: the framework is blind to it; neither the stale record nor the
-    outdated last-handled state is ever touched again. All hypotheses of `terminates` hold. -/
+/-- C03-F2 (repaired by 423b86f), kept as a regression of the OLD turn (`loopStepOld`): before the repair "no
+    progress records remain" was FALSE for an object that stopped matching every handler: the framework was blind to
+    it, the stale record was never touched again. All hypotheses of `terminates` hold. -/
 theorem blind_witness :
     ∃ (env : Env) (s : State Nat), WF env ∧ AllFinal env ∧ Uniform env s ∧ env.prematch = false ∧
       s.pending = true ∧ s.gone = false ∧ s.marked = false ∧ "u0" ∈ env.owned ∧
-      (iter env 1 s).pending = false ∧ (iter env 1 s).base ≠ some s.ess ∧ (iter env 1 s).writes = s.writes ∧
-      (iter env 1 s).P "u0" = s.P "u0" ∧ (s.P "u0").isSome = true :=
+      (iterOld env 1 s).pending = false ∧ (iterOld env 1 s).writes = s.writes ∧
+      (iterOld env 1 s).P "u0" = s.P "u0" ∧ (s.P "u0").isSome = true ∧
+      -- the repaired turn: one PATCH purges the record, its echo finds nothing to do; last-handled is left alone
+      (iter env 1 s).pending = true ∧ (iter env 1 s).writes = s.writes + 1 ∧ (iter env 1 s).P "u0" = none ∧
+      (iter env 2 s).pending = false ∧ (iter env 2 s).writes = s.writes + 1 ∧ (iter env 2 s).base = s.base ∧
+      bound env s = 2 :=
   ⟨envW false, stateW (some 0) 1, envW_wf false, fun _ _ => rfl, stateW_uniform false _ _, rfl, rfl, rfl, rfl,
-   by decide, by decide, by decide, by decide, by decide, by decide⟩
+   by decide, by decide, by decide, by decide, by decide, by decide, by decide, by decide, by decide, by decide,
+   by decide, by decide⟩
 
 def envF : Env := { envW true with foreignFins := true }
 def stateF : State Nat := { stateW (some 0) 1 with marked := true }
 
-/-- C03-N4 (open). "No progress records remain" and "last-handled = essence" are FALSE as well for an object
-    that is marked for deletion, NOT held by the framework's own finalizer (no mandatory deletion handler) and
-    kept alive by somebody else's finalizer: the cause is FREE, the framework leaves the object alone; the
-    record of the handler that was retrying and the outdated last-handled state stay for as long as the
-    object does. All hypotheses of `terminates` hold; the object matches handlers (`prematch`). -/
+/-- C03-N4 (repaired by 40d09eb), kept as a regression of the OLD turn: before the repair "no progress records
+    remain" was FALSE as well for an object that is marked for deletion, NOT held by the framework's own finalizer
+    (no mandatory deletion handler) and kept alive by somebody else's finalizer: the cause is FREE, the framework left
+    the object alone; the record of the handler that was retrying stayed for as long as the object did. -/
 theorem free_witness :
     WF envF ∧ AllFinal envF ∧ Uniform envF stateF ∧ envF.prematch = true ∧
       stateF.pending = true ∧ stateF.gone = false ∧ stateF.marked = true ∧ stateF.blocked = false ∧
       "u0" ∈ envF.owned ∧
-      (iter envF 1 stateF).pending = false ∧ (iter envF 1 stateF).gone = false ∧
-      (iter envF 1 stateF).base ≠ some stateF.ess ∧ (iter envF 1 stateF).writes = stateF.writes ∧
-      (iter envF 1 stateF).P "u0" = stateF.P "u0" ∧ (stateF.P "u0").isSome = true := by
+      (iterOld envF 1 stateF).pending = false ∧ (iterOld envF 1 stateF).gone = false ∧
+      (iterOld envF 1 stateF).writes = stateF.writes ∧
+      (iterOld envF 1 stateF).P "u0" = stateF.P "u0" ∧ (stateF.P "u0").isSome = true ∧
+      -- the repaired turn: one PATCH purges the record, its echo finds nothing to do
+      (iter envF 1 stateF).pending = true ∧ (iter envF 1 stateF).writes = stateF.writes + 1 ∧
+      (iter envF 1 stateF).P "u0" = none ∧ (iter envF 2 stateF).pending = false ∧
+      (iter envF 2 stateF).gone = false ∧ (iter envF 2 stateF).writes = stateF.writes + 1 ∧
+      bound envF stateF = 2 := by
   refine ⟨?_, fun _ _ => rfl, ?_, rfl, rfl, rfl, rfl, rfl, by decide, by decide, by decide, by decide, by decide,
-    by decide, by decide⟩
+    by decide, by decide, by decide, by decide, by decide, by decide, by decide, by decide⟩
   · exact ⟨(envW_wf true).1, by decide, by decide, by decide⟩
   · exact stateW_uniform true (some 0) 1
+
+-- non-vacuity of `blind_purges` / `free_purges` (and of the blind and FREE cases of `final_state` / `converges`): the
+-- states of `blind_witness` / `free_witness` meet the hypotheses, with leftovers to purge; after the purge none
+example : adjusting (envW false) (stateW (some 0) 1) = false ∧ leftovers (envW false) (stateW (some 0) 1) = true ∧
+    leftovers (envW false) (iter (envW false) 1 (stateW (some 0) 1)) = false ∧
+    adjusting envF stateF = false ∧ leftovers envF stateF = true ∧ leftovers envF (iter envF 1 stateF) = false ∧
+    (iter (envW false) 2 (stateW (some 0) 1)).gone = false ∧ (iter envF 2 stateF).gone = false := by
+  refine ⟨by decide, by decide, by decide, by decide, by decide, by decide, by decide, by decide⟩
 
 /-- two update handlers, all at once; `u2` fails temporarily on its first attempt -/
 def envA : Env :=
@@ -850,14 +842,25 @@ theorem sleeping_handler_woken_instance :
     · cases hP; rfl
     · cases hP
 
-/-! ### cycles that start with a carried patch (C08's transport): where C03-N2 lives -/
+/-! ### cycles that start with a carried patch (C08's transport): where C03-N2 lived -/
 
-/-- Every theorem about `loopStep` / `iter` above is about turns that start WITHOUT a carried patch
-    (`memory.remaining_patch = None`): there `loopStepC` is `loopStep`. FULL STATEMENT (property): convergence
-    whatever patch the cycles start with, i.e. along `loopStepC env c_k` for any sequence `c_k` that is eventually
-    `.none` — FALSE of the code: `carried_noop_witness` (OPEN C03-N2). -/
-theorem carried_none_partial (env : Env) (s : State E) : loopStepC env .none s = loopStep env s := by
+/-- A cycle that starts without a carried patch (`memory.remaining_patch = None`) takes the ordinary turn. -/
+theorem carried_none (env : Env) (s : State E) : loopStepC env .none s = loopStep env s := by
   unfold loopStepC; simp
+
+/-- A carried patch that has become a no-op (the change it conflicted with has fulfilled it) does NOT swallow the cycle
+    (repo fixes 608a57d + 02af7ce, formerly C03-N2): the handlers (and a release) are skipped in this turn and nothing
+    is sent for the patch, but the turn returns a zero delay: the object is touched and the touch's echo is pending —
+    the next turn is an ordinary one on the same records, last-handled state and essence. -/
+theorem carried_noop_comes_back (env : Env) (s : State E) (hp : s.pending = true) (hg : s.gone = false)
+    (ha : adjusting env s = false) (hpm : env.prematch = true) :
+    (loopStepC env .noop s).pending = true ∧ s.writes < (loopStepC env .noop s).writes ∧
+    (loopStepC env .noop s).base = s.base ∧ (loopStepC env .noop s).P = s.P ∧ (loopStepC env .noop s).ess = s.ess ∧
+    (loopStepC env .noop s).gone = false ∧ (loopStepC env .noop s).marked = s.marked ∧
+    (loopStepC env .noop s).blocked = s.blocked := by
+  unfold loopStepC
+  simp [hp, hg, ha, hpm]
+  omega
 
 /-- A carried patch that still has something to change is harmless: the handlers are skipped in this turn, but the
     re-sent patch changes the object and its echo re-triggers the cycle; records and last-handled state are as
@@ -865,33 +868,103 @@ theorem carried_none_partial (env : Env) (s : State E) : loopStepC env .none s =
 theorem carried_ops_leaves_event (env : Env) (s : State E) (hp : s.pending = true) (hg : s.gone = false)
     (ha : adjusting env s = false) (hpm : env.prematch = true) :
     (loopStepC env .ops s).pending = true ∧ s.writes < (loopStepC env .ops s).writes ∧
-    (loopStepC env .ops s).base = s.base ∧ (loopStepC env .ops s).P = s.P ∧ (loopStepC env .ops s).ess = s.ess := by
+    (loopStepC env .ops s).base = s.base ∧ (loopStepC env .ops s).P = s.P ∧ (loopStepC env .ops s).ess = s.ess ∧
+    (loopStepC env .ops s).gone = false ∧ (loopStepC env .ops s).marked = s.marked := by
   unfold loopStepC
   simp [hp, hg, ha, hpm]
   omega
+
+/-- CONVERGENCE WHATEVER PATCH THE CYCLE STARTS WITH (the full statement, formerly false: C03-N2). Let the first cycle
+    start with any carried patch `c` — none, one that still changes the object, or a no-op (then the object is touched
+    and the handlers run one turn later): if the handlers' scripts
+    have only finitely many failures, the loop reaches quiescence, and the object, if it still exists then, carries
+    no progress record, is not written to any more and — seen by the framework and not in deletion — has its
+    last-handled state equal to its essence. -/
+theorem carried_converges (env : Env) (wf : WF env) (hfin : FinitelyFailing env) (c : Carried)
+    (s : State E) (hu : Uniform env s) (hp : s.pending = true) (hg : s.gone = false) :
+    ∃ m, (iter env m (loopStepC env c s)).pending = false ∧
+      ((iter env m (loopStepC env c s)).gone = false →
+        (∀ i ∈ env.owned, (iter env m (loopStepC env c s)).P i = none) ∧
+        (env.prematch = true → s.marked = false → (iter env m (loopStepC env c s)).base = some s.ess) ∧
+        (loopStep env { iter env m (loopStepC env c s) with pending := true }).writes
+          = (iter env m (loopStepC env c s)).writes + cp env ∧
+        (loopStep env { iter env m (loopStepC env c s) with pending := true }).pending = false) := by
+  -- the ordinary turn: one more turn of `iter`
+  have ordinary : loopStepC env c s = loopStep env s →
+      ∃ m, (iter env m (loopStepC env c s)).pending = false ∧
+        ((iter env m (loopStepC env c s)).gone = false →
+          (∀ i ∈ env.owned, (iter env m (loopStepC env c s)).P i = none) ∧
+          (env.prematch = true → s.marked = false → (iter env m (loopStepC env c s)).base = some s.ess) ∧
+          (loopStep env { iter env m (loopStepC env c s) with pending := true }).writes
+            = (iter env m (loopStepC env c s)).writes + cp env ∧
+          (loopStep env { iter env m (loopStepC env c s) with pending := true }).pending = false) := by
+    intro heq
+    rw [heq]
+    obtain ⟨m, hq⟩ := terminates_finitely_failing env wf hfin (loopStep env s) (loopStep_uniform env wf s hu)
+    refine ⟨m, hq, ?_⟩
+    intro hgq
+    have hq' : (iter env (m + 1) s).pending = false := hq
+    have hgq' : (iter env (m + 1) s).gone = false := hgq
+    obtain ⟨h1, h2, h3, h4, _⟩ := final_state env (m + 1) s hp hg hq' hgq'
+    exact ⟨h1, fun a b => (h2 a b).1, h3, h4⟩
+  by_cases hskip : (c = .none || !s.pending || s.gone || adjusting env s || !env.prematch) = true
+  · exact ordinary (by unfold loopStepC; rw [if_pos hskip])
+  · -- the carried patch is re-sent, or the object is touched: same object, a later clock, an echo pending
+    have ha : adjusting env s = false := by
+      cases h : adjusting env s
+      · rfl
+      · simp [h] at hskip
+    have hpm : env.prematch = true := by
+      cases h : env.prematch
+      · simp [h] at hskip
+      · rfl
+    have hshape : (loopStepC env c s).pending = true ∧ (loopStepC env c s).P = s.P ∧ (loopStepC env c s).ess = s.ess ∧
+        (loopStepC env c s).gone = false ∧ (loopStepC env c s).marked = s.marked := by
+      cases c
+      · simp at hskip
+      · obtain ⟨e1, _, _, e4, e5, e6, e7⟩ := carried_ops_leaves_event env s hp hg ha hpm
+        exact ⟨e1, e4, e5, e6, e7⟩
+      · obtain ⟨e1, _, _, e4, e5, e6, e7, _⟩ := carried_noop_comes_back env s hp hg ha hpm
+        exact ⟨e1, e4, e5, e6, e7⟩
+    obtain ⟨e1, e4, e5, e6, e7⟩ := hshape
+    have hu' : Uniform env (loopStepC env c s) := by
+      obtain ⟨q, hq⟩ := hu
+      exact ⟨q, fun i hi r h => hq i hi r (by rw [e4] at h; exact h)⟩
+    obtain ⟨m, hq⟩ := terminates_finitely_failing env wf hfin _ hu'
+    refine ⟨m, hq, ?_⟩
+    intro hgq
+    obtain ⟨h1, h2, h3, h4, _⟩ := final_state env m _ e1 e6 hq hgq
+    rw [e5, e7] at h2
+    exact ⟨h1, fun a b => (h2 a b).1, h3, h4⟩
 
 /-- the update `1 → 2` is outstanding, nothing on record yet, its event pending -/
 def stateC : State Nat :=
   { P := fun _ => none, base := some 1, ess := 2, marked := false, blocked := false, gone := false,
     noticed := false, fullyHandled := true, resumed := [], now := 256, pending := true, writes := 0 }
 
-/-- C03-N2 (open): the lost wake-up that is left of C03-F5. The cycle for the outstanding update starts with a carried
-    handler function that has become a no-op (the edit it conflicted with has fulfilled it): the update handler `u0` is
-    selected and would succeed at once (`AllFinal`), but the handlers are skipped, nothing is sent, no event follows:
-    the loop is quiescent with last-handled ≠ essence, `u0` never called — for ever (`iter` does not move a
-    quiescent state). All hypotheses of `converges` hold. Replayed on the real operator:
-    corpus/C03/N2_carried_noop_fn_swallows_cycle.json. -/
+/-- C03-N2 (repaired by 608a57d), kept as a regression of the OLD turn (`loopStepCOld`): the lost wake-up that was left
+    of C03-F5. The cycle for the outstanding update starts with a carried handler function that has become a no-op:
+    the update handler `u0` is selected and would succeed at once (`AllFinal`), but the handlers were skipped, nothing
+    was sent, no event followed: quiescent with last-handled ≠ essence, `u0` never called — for ever. With the repair
+    the turn touches the object, the next one calls `u0`, and the loop converges in three turns.
+    Replayed on the real operator: corpus/C03/N2_carried_noop_fn_swallows_cycle.json. -/
 theorem carried_noop_witness :
     WF envI ∧ AllFinal envI ∧ Uniform envI stateC ∧ envI.prematch = true ∧ adjusting envI stateC = false ∧
     stateC.pending = true ∧ stateC.gone = false ∧ stateC.marked = false ∧
     isHandler stateC = true ∧ "u0" ∈ selOf envI stateC ∧ (pass envI stateC).invoked = [("u0", 0)] ∧
-    (loopStepC envI .noop stateC).pending = false ∧ (loopStepC envI .noop stateC).base ≠ some stateC.ess ∧
-    (loopStepC envI .noop stateC).writes = stateC.writes ∧
-    (∀ n, iter envI n (loopStepC envI .noop stateC) = loopStepC envI .noop stateC) ∧
-    -- whereas without the carried patch the same state converges in two turns
-    (iter envI 2 stateC).pending = false ∧ (iter envI 2 stateC).base = some 2 := by
+    (loopStepCOld envI .noop stateC).pending = false ∧ (loopStepCOld envI .noop stateC).base ≠ some stateC.ess ∧
+    (loopStepCOld envI .noop stateC).writes = stateC.writes ∧
+    (∀ n, iter envI n (loopStepCOld envI .noop stateC) = loopStepCOld envI .noop stateC) ∧
+    -- the repaired turn: a touch (one write), its echo pending; then `u0` runs, the closing PATCH, its echo: quiescent
+    (loopStepC envI .noop stateC).pending = true ∧ (loopStepC envI .noop stateC).writes = 1 ∧
+    (loopStepC envI .noop stateC).base = some 1 ∧
+    (pass envI (loopStepC envI .noop stateC)).invoked = [("u0", 0)] ∧
+    (iter envI 2 (loopStepC envI .noop stateC)).pending = false ∧
+    (iter envI 2 (loopStepC envI .noop stateC)).base = some 2 ∧
+    (iter envI 2 (loopStepC envI .noop stateC)).writes = 2 := by
   refine ⟨⟨?_, by decide, by decide, by decide⟩, fun _ _ => rfl, ⟨"update", fun i _ r h => by simp [stateC] at h⟩,
-    rfl, by decide, rfl, rfl, rfl, by decide, by decide, by decide, by decide, by decide, by decide, ?_, by decide, by decide⟩
+    rfl, by decide, rfl, rfl, rfl, by decide, by decide, by decide, by decide, by decide, by decide, ?_, by decide,
+    by decide, by decide, by decide, by decide, by decide, by decide⟩
   · intro c i hi
     simp only [envI] at hi ⊢
     split at hi
@@ -942,55 +1015,150 @@ def stateD : State Nat :=
   { P := fun _ => none, base := some 0, ess := 0, marked := true, blocked := true, gone := false,
     noticed := false, fullyHandled := true, resumed := [], now := 0, pending := true, writes := 0 }
 
-/-- C03-N2, second shape (found by the generator): the swallowed cycle is the RELEASE of a deletion. The object is
-    marked and held by the own finalizer, the mandatory deletion handler `d0` succeeds at once: without a carried patch
-    one turn releases the object and it is gone; with a carried no-op the handlers AND the release are skipped, nothing
-    is sent, no event follows: the object stays marked and blocked for ever. (`final_state_deleted`'s negation for
-    `loopStepC`.) Replayed on the real operator: corpus/C03/N2b_carried_noop_fn_blocks_deletion.json. -/
+/-- C03-N2, second shape (repaired by 608a57d), a regression of the OLD turn: the swallowed cycle was the RELEASE of a
+    deletion. The object is marked and held by the own finalizer, the mandatory deletion handler `d0` succeeds at once:
+    with a carried no-op the handlers AND the release were skipped, nothing was sent, no event followed: the object
+    stayed marked and blocked for ever. With the repair the turn touches the object and the next one releases it.
+    Replayed on the real operator: corpus/C03/N2b_carried_noop_fn_blocks_deletion.json. -/
 theorem carried_noop_blocks_release_witness :
     AllFinal { envD false with exec := fun _ _ => okOutcome } ∧
     stateD.pending = true ∧ stateD.marked = true ∧ stateD.blocked = true ∧
     adjusting { envD false with exec := fun _ _ => okOutcome } stateD = false ∧
-    (iter { envD false with exec := fun _ _ => okOutcome } 1 stateD).gone = true ∧
-    (loopStepC { envD false with exec := fun _ _ => okOutcome } .noop stateD).pending = false ∧
+    (loopStepCOld { envD false with exec := fun _ _ => okOutcome } .noop stateD).pending = false ∧
+    (loopStepCOld { envD false with exec := fun _ _ => okOutcome } .noop stateD).blocked = true ∧
+    (loopStepCOld { envD false with exec := fun _ _ => okOutcome } .noop stateD).gone = false ∧
+    (loopStepCOld { envD false with exec := fun _ _ => okOutcome } .noop stateD).writes = stateD.writes ∧
+    -- the repaired turn: touched, still held; the next turn releases it
+    (loopStepC { envD false with exec := fun _ _ => okOutcome } .noop stateD).pending = true ∧
     (loopStepC { envD false with exec := fun _ _ => okOutcome } .noop stateD).blocked = true ∧
-    (loopStepC { envD false with exec := fun _ _ => okOutcome } .noop stateD).gone = false ∧
-    (loopStepC { envD false with exec := fun _ _ => okOutcome } .noop stateD).writes = stateD.writes := by
-  refine ⟨fun _ _ => rfl, rfl, rfl, rfl, by decide, by decide, by decide, by decide, by decide, by decide⟩
+    (iter { envD false with exec := fun _ _ => okOutcome } 1
+      (loopStepC { envD false with exec := fun _ _ => okOutcome } .noop stateD)).gone = true ∧
+    (iter { envD false with exec := fun _ _ => okOutcome } 1
+      (loopStepC { envD false with exec := fun _ _ => okOutcome } .noop stateD)).blocked = false := by
+  refine ⟨fun _ _ => rfl, rfl, rfl, rfl, by decide, by decide, by decide, by decide, by decide, by decide, by decide,
+    by decide, by decide⟩
 
-/-! ### cycles held back by the consistency barrier (C07's mechanism): where C03-N6 lives -/
+/-! ### cycles held back by the consistency barrier (C07's mechanism): where C03-N6 lived -/
 
-/-- Every theorem about `loopStep` / `iter` above is about turns on a consistent view. An INCONSISTENT turn (the worker
-    still awaits the echo of its own last write) with no patch accumulated is the same turn taken at the consistency
-    deadline — all of them apply with the later clock. FULL STATEMENT (property): convergence whatever the view of the
-    turns, i.e. also along `loopStepI env ne dl` — FALSE of the code for `ne = true`: `inconsistent_nonempty_witness`
-    (OPEN C03-N6). -/
-theorem inconsistent_empty_partial (env : Env) (dl : Tick) (s : State E) (hp : s.pending = true) (hg : s.gone = false)
+/-- An INCONSISTENT turn (the worker still awaits the echo of its own last write) with no patch accumulated is the
+    ordinary turn taken at the consistency deadline. -/
+theorem inconsistent_empty (env : Env) (dl : Tick) (s : State E) (hp : s.pending = true) (hg : s.gone = false)
     (ha : adjusting env s = false) (hpm : env.prematch = true) :
     loopStepI env false dl s = loopStep env { s with now := if s.now < dl then dl else s.now } := by
   unfold loopStepI
   simp [hp, hg, ha, hpm]
 
-/-- C03-N6 (open): lost wake-up in the consistency wait. The update `1 → 2` is outstanding, its handler `u0` would
-    succeed at once, but the turn is inconsistent (the echo of the framework's last write was lost) and a patch is
-    already accumulated (an on.event handler's idempotent function, or its constant result): the wait for the deadline
-    and the handlers are skipped, the patch changes nothing, no event follows: quiescent for ever with last-handled ≠
-    essence, `u0` never called. With an empty patch the same turn handles the update at the deadline.
+/-- An inconsistent turn WITH a patch accumulated (an on.event handler's constant result, or functions without
+    operations) skips the wait and the handlers — and COMES BACK when the wait is over (repo fix 30557a0, formerly
+    C03-N6): the patch changes nothing, so `apply` sleeps the remaining waiting time and touches the object; an event
+    is pending again, not before the deadline (if the wait fits under the keepalive cap: the consistency timeout is
+    seconds, the cap minutes); records, last-handled state and essence are as they were. -/
+theorem inconsistent_nonempty_revisited (env : Env) (wf : WF env) (dl : Tick) (s : State E)
+    (hp : s.pending = true) (hg : s.gone = false) (ha : adjusting env s = false) (hpm : env.prematch = true) :
+    (loopStepI env true dl s).pending = true ∧ s.writes < (loopStepI env true dl s).writes ∧
+    (loopStepI env true dl s).base = s.base ∧ (loopStepI env true dl s).P = s.P ∧
+    (loopStepI env true dl s).ess = s.ess ∧ (loopStepI env true dl s).gone = false ∧
+    (loopStepI env true dl s).marked = s.marked ∧
+    (dl - s.now ≤ env.cap → dl ≤ (loopStepI env true dl s).now) := by
+  have heq : loopStepI env true dl s =
+      { s with now := s.now + waitOf env dl s + latS env, pending := true, writes := s.writes + cp env + 1 } := by
+    unfold loopStepI; simp [hp, hg, ha, hpm]
+  rw [heq]
+  refine ⟨rfl, ?_, rfl, rfl, rfl, hg, rfl, fun hle => waitOf_reaches env wf dl s hle⟩
+  show s.writes < s.writes + cp env + 1
+  omega
+
+/-- CONVERGENCE WHATEVER THE VIEW OF THE FIRST TURN (the full statement, formerly false: C03-N6). Let the first turn be
+    held back by the consistency barrier, with or without a patch accumulated: if the handlers' scripts have only
+    finitely many failures, the loop reaches quiescence, and the object, if it still exists then, carries no progress
+    record, is not written to any more and — seen by the framework and not in deletion — has its last-handled state
+    equal to its essence. -/
+theorem inconsistent_converges (env : Env) (wf : WF env) (hfin : FinitelyFailing env) (ne : Bool) (dl : Tick)
+    (s : State E) (hu : Uniform env s) (hp : s.pending = true) (hg : s.gone = false) :
+    ∃ m, (iter env m (loopStepI env ne dl s)).pending = false ∧
+      ((iter env m (loopStepI env ne dl s)).gone = false →
+        (∀ i ∈ env.owned, (iter env m (loopStepI env ne dl s)).P i = none) ∧
+        (env.prematch = true → s.marked = false → (iter env m (loopStepI env ne dl s)).base = some s.ess) ∧
+        (loopStep env { iter env m (loopStepI env ne dl s) with pending := true }).writes
+          = (iter env m (loopStepI env ne dl s)).writes + cp env ∧
+        (loopStep env { iter env m (loopStepI env ne dl s) with pending := true }).pending = false) := by
+  -- an ordinary turn from a state `s'` that differs from `s` in the clock only
+  have ordinary : ∀ s' : State E, s'.P = s.P → s'.pending = true → s'.gone = false → s'.ess = s.ess →
+      s'.marked = s.marked → loopStepI env ne dl s = loopStep env s' →
+      ∃ m, (iter env m (loopStepI env ne dl s)).pending = false ∧
+        ((iter env m (loopStepI env ne dl s)).gone = false →
+          (∀ i ∈ env.owned, (iter env m (loopStepI env ne dl s)).P i = none) ∧
+          (env.prematch = true → s.marked = false → (iter env m (loopStepI env ne dl s)).base = some s.ess) ∧
+          (loopStep env { iter env m (loopStepI env ne dl s) with pending := true }).writes
+            = (iter env m (loopStepI env ne dl s)).writes + cp env ∧
+          (loopStep env { iter env m (loopStepI env ne dl s) with pending := true }).pending = false) := by
+    intro s' hP hp' hg' he hm heq
+    rw [heq]
+    have hu' : Uniform env s' := by
+      obtain ⟨q, hq⟩ := hu
+      exact ⟨q, fun i hi r h => hq i hi r (by rw [hP] at h; exact h)⟩
+    obtain ⟨m, hq⟩ := terminates_finitely_failing env wf hfin (loopStep env s') (loopStep_uniform env wf s' hu')
+    refine ⟨m, hq, ?_⟩
+    intro hgq
+    have hq' : (iter env (m + 1) s').pending = false := hq
+    have hgq' : (iter env (m + 1) s').gone = false := hgq
+    obtain ⟨h1, h2, h3, h4, _⟩ := final_state env (m + 1) s' hp' hg' hq' hgq'
+    rw [he, hm] at h2
+    exact ⟨h1, fun a b => (h2 a b).1, h3, h4⟩
+  by_cases hskip : (!s.pending || s.gone || adjusting env s || !env.prematch) = true
+  · exact ordinary s rfl hp hg rfl rfl (by unfold loopStepI; rw [if_pos hskip])
+  · have ha : adjusting env s = false := by
+      cases h : adjusting env s
+      · rfl
+      · simp [h] at hskip
+    have hpm : env.prematch = true := by
+      cases h : env.prematch
+      · simp [h] at hskip
+      · rfl
+    cases ne
+    · exact ordinary { s with now := if s.now < dl then dl else s.now } rfl hp hg rfl rfl
+        (inconsistent_empty env dl s hp hg ha hpm)
+    · obtain ⟨e1, _, _, e4, e5, e6, e7, _⟩ := inconsistent_nonempty_revisited env wf dl s hp hg ha hpm
+      have hu' : Uniform env (loopStepI env true dl s) := by
+        obtain ⟨q, hq⟩ := hu
+        exact ⟨q, fun i hi r h => hq i hi r (by rw [e4] at h; exact h)⟩
+      obtain ⟨m, hq⟩ := terminates_finitely_failing env wf hfin _ hu'
+      refine ⟨m, hq, ?_⟩
+      intro hgq
+      obtain ⟨h1, h2, h3, h4, _⟩ := final_state env m _ e1 e6 hq hgq
+      rw [e5, e7] at h2
+      exact ⟨h1, fun a b => (h2 a b).1, h3, h4⟩
+
+/-- C03-N6 (repaired by 30557a0), kept as a regression of the OLD turn (`loopStepIOld`): lost wake-up in the consistency
+    wait. The update `1 → 2` is outstanding, its handler `u0` would succeed at once, but the turn is inconsistent (the
+    echo of the framework's last write was lost) and a patch is already accumulated (an on.event handler's idempotent
+    function, or its constant result): the wait for the deadline and the handlers were skipped, the patch changed
+    nothing, no event followed: quiescent for ever with last-handled ≠ essence, `u0` never called. With the repair the
+    turn comes back after the deadline (576 + touch and echo), `u0` runs, the loop converges.
     Replayed on the real operator: corpus/C03/N6_inconsistent_noop_patch_skips_wait.json, N6b_*. -/
 theorem inconsistent_nonempty_witness :
     WF envI ∧ AllFinal envI ∧ Uniform envI stateC ∧ envI.prematch = true ∧ adjusting envI stateC = false ∧
     stateC.pending = true ∧ stateC.gone = false ∧ isHandler stateC = true ∧ "u0" ∈ selOf envI stateC ∧
-    (loopStepI envI true 576 stateC).pending = false ∧ (loopStepI envI true 576 stateC).base ≠ some stateC.ess ∧
-    (loopStepI envI true 576 stateC).writes = stateC.writes ∧
-    (loopStepI { envI with constPatch := true } true 576 stateC).pending = false ∧
-    (loopStepI { envI with constPatch := true } true 576 stateC).base ≠ some stateC.ess ∧
-    (∀ n, iter envI n (loopStepI envI true 576 stateC) = loopStepI envI true 576 stateC) ∧
-    -- whereas with an empty patch the turn is taken at the deadline and the loop converges
+    (loopStepIOld envI true 576 stateC).pending = false ∧ (loopStepIOld envI true 576 stateC).base ≠ some stateC.ess ∧
+    (loopStepIOld envI true 576 stateC).writes = stateC.writes ∧
+    (loopStepIOld { envI with constPatch := true } true 576 stateC).pending = false ∧
+    (loopStepIOld { envI with constPatch := true } true 576 stateC).base ≠ some stateC.ess ∧
+    (∀ n, iter envI n (loopStepIOld envI true 576 stateC) = loopStepIOld envI true 576 stateC) ∧
+    -- the repaired turn: back after the deadline, then handled
+    (loopStepI envI true 576 stateC).pending = true ∧ (loopStepI envI true 576 stateC).now = 577 ∧
+    (loopStepI envI true 576 stateC).writes = 1 ∧
+    (loopStepI { envI with constPatch := true } true 576 stateC).now = 578 ∧
+    (loopStepI { envI with constPatch := true } true 576 stateC).writes = 2 ∧
+    (pass envI (loopStepI envI true 576 stateC)).invoked = [("u0", 0)] ∧
+    (iter envI 2 (loopStepI envI true 576 stateC)).pending = false ∧
+    (iter envI 2 (loopStepI envI true 576 stateC)).base = some 2 ∧
+    -- with an empty patch the turn is taken at the deadline and the loop converges (as before)
     (loopStepI envI false 576 stateC).now = 577 ∧ (pass envI { stateC with now := 576 }).invoked = [("u0", 0)] ∧
     (iter envI 1 (loopStepI envI false 576 stateC)).pending = false ∧
     (iter envI 1 (loopStepI envI false 576 stateC)).base = some 2 := by
   refine ⟨⟨?_, by decide, by decide, by decide⟩, fun _ _ => rfl, ⟨"update", fun i _ r h => by simp [stateC] at h⟩,
     rfl, by decide, rfl, rfl, by decide, by decide, by decide, by decide, by decide, by decide, by decide, ?_,
+    by decide, by decide, by decide, by decide, by decide, by decide, by decide, by decide,
     by decide, by decide, by decide, by decide⟩
   · intro c i hi
     simp only [envI] at hi ⊢
@@ -1033,17 +1201,25 @@ example : FinitelyFailing envA ∧ ¬ AllFinal envA := by
 
 -- `envOfU` (Model): ONE mandatory deletion handler whose filter reads the framework's own finalizer
 
-theorem unstable_step (s : State Nat) (hp : s.pending = true) (hg : s.gone = false) (hm : s.marked = false) :
+theorem unstable_step (s : State Nat) (hp : s.pending = true) (hg : s.gone = false) (hm : s.marked = false)
+    (hP : s.P "d0" = none) :
     (loopStepG envOfU s).pending = true ∧ (loopStepG envOfU s).gone = false ∧ (loopStepG envOfU s).marked = false ∧
-    (loopStepG envOfU s).blocked = !s.blocked ∧ (loopStepG envOfU s).writes = s.writes + 1 := by
+    (loopStepG envOfU s).blocked = !s.blocked ∧ (loopStepG envOfU s).writes = s.writes + 1 ∧
+    (loopStepG envOfU s).P "d0" = none := by
   have hadj : adjusting (envOfU s) s = true := by
     rw [adjusting_eq]
     cases hb : s.blocked <;> simp [envOfU, hb, hm]
+  -- `d0` never runs: no record of it is ever on the object, the removing turn has nothing to purge
+  have hl : leftovers (envOfU s) s = false :=
+    leftovers_false_of_norec (envOfU s) s (fun i hi => by
+      have : i = "d0" := by simpa [envOfU] using hi
+      rw [this]; exact hP)
   unfold loopStepG
-  rcases turn_cases (envOfU s) s hp hg with ⟨_, _, hb, _, h⟩ | ⟨_, hb, h⟩ | ⟨h1, _⟩ | ⟨h1, _⟩ | ⟨h1, _⟩
-  · rw [h]; exact ⟨rfl, hg, hm, by simp [addState, hb], by simp [addState, cp, envOfU]⟩
+  rcases turn_cases (envOfU s) s hp hg with ⟨_, _, hb, _, h⟩ | ⟨_, hb, h⟩ | ⟨h1, _⟩ | ⟨h1, _⟩ | ⟨h1, _⟩ | ⟨h1, _⟩
+  · rw [h]; exact ⟨rfl, hg, hm, by simp [addState, hb], by simp [addState, cp, envOfU], hP⟩
   · rw [h]; exact ⟨by simp [remState, hm], by simp [remState, hm], hm, by simp [remState, hb],
-      by simp [remState, cp, envOfU]⟩
+      by simp [remState, cp, hl]; simp [envOfU], by simp [remState, hl]; exact hP⟩
+  · rw [hadj] at h1; cases h1
   · rw [hadj] at h1; cases h1
   · rw [hadj] at h1; cases h1
   · rw [hadj] at h1; cases h1
@@ -1059,15 +1235,15 @@ theorem unstable_filters_witness :
     WF (envOfU stateN) ∧ AllFinal (envOfU stateN) ∧ Uniform (envOfU stateN) stateN ∧
     ¬ FiltersStable envOfU stateN ∧
     ∀ n, (iterG envOfU n stateN).pending = true ∧ (iterG envOfU n stateN).writes = n := by
-  have key : ∀ (n : Nat) (s : State Nat), s.pending = true → s.gone = false → s.marked = false →
+  have key : ∀ (n : Nat) (s : State Nat), s.pending = true → s.gone = false → s.marked = false → s.P "d0" = none →
       (iterG envOfU n s).pending = true ∧ (iterG envOfU n s).writes = s.writes + n := by
     intro n
     induction n with
-    | zero => intro s hp _ _; exact ⟨hp, rfl⟩
+    | zero => intro s hp _ _ _; exact ⟨hp, rfl⟩
     | succ n ih =>
-      intro s hp hg hm
-      obtain ⟨h1, h2, h3, _, h5⟩ := unstable_step s hp hg hm
-      obtain ⟨i1, i2⟩ := ih (loopStepG envOfU s) h1 h2 h3
+      intro s hp hg hm hP
+      obtain ⟨h1, h2, h3, _, h5, h6⟩ := unstable_step s hp hg hm hP
+      obtain ⟨i1, i2⟩ := ih (loopStepG envOfU s) h1 h2 h3 h6
       simp only [iterG]
       exact ⟨i1, by rw [i2, h5]; omega⟩
   refine ⟨⟨?_, by decide, by decide, by decide⟩, fun _ _ => rfl, ⟨"delete", fun i _ r h => by simp [stateN] at h⟩, ?_, ?_⟩
@@ -1079,7 +1255,7 @@ theorem unstable_filters_witness :
   · intro hst
     have h1 := hst 1
     have hb : (iterG envOfU 1 stateN).blocked = true := by
-      have := (unstable_step stateN rfl rfl rfl).2.2.2.1
+      have := (unstable_step stateN rfl rfl rfl rfl).2.2.2.1
       simpa [iterG, stateN] using this
     have : (envOfU (iterG envOfU 1 stateN)).prematch = (envOfU stateN).prematch := by rw [h1]
     have h2 : (envOfU (iterG envOfU 1 stateN)).prematch = false := by simp [envOfU, hb]
@@ -1087,7 +1263,7 @@ theorem unstable_filters_witness :
     rw [h2, h3] at this
     cases this
   · intro n
-    have := key n stateN rfl rfl rfl
+    have := key n stateN rfl rfl rfl rfl
     simpa [stateN] using this
 
 -- non-vacuity of `deletion_converges` / `final_state_deleted`: the delete handler fails once, sleeps, is retried,
